@@ -287,3 +287,117 @@ def _show(names) -> str:
         return n[0] + "".join(str(x) for x in n[1:])
     s = "[" + ", ".join(one(n) for n in names[:14]) + (", ..." if len(names) > 14 else "") + "]"
     return s
+
+
+# ---------------------------------------------------------------------------------
+# uncompact on small list shapes
+# ---------------------------------------------------------------------------------
+
+def run_uncompact(ctx, su) -> Dict[str, int]:
+    """C10.7: uncompact on lists of a few symbolic cells, compared element by element with the concatenation of
+    cell_to_children(cell, target) (or the cell itself) in input order and with multiplicity.  Refutation only."""
+    from .rules_C06 import children_family
+    interp = su.interp
+    saved, saved_steps = interp.unroll_ranges, interp.MAX_STEPS
+    interp.unroll_ranges, interp.MAX_STEPS = 16, 60000
+    stats = {"scenarios": 0, "decided": 0, "not_modelled": 0}
+    fn = ctx.sources.func(COMPACT, "uncompact")
+    where = core.loc(COMPACT, fn)
+    try:
+        streak = 0
+        for r in (3, 5, 12, 27):
+            if streak >= 6 or r + 2 > min(su.consts.MAX, 29):
+                break
+            try:
+                fam = Family(su, r)
+            except (Budget, _Unmodelled):
+                continue
+            if not fam.ok:
+                continue
+            a, b, c = ("c", 0, 1), ("c", 0, 2), ("c", 1, 0)
+            P0, P1 = ("P", 0), ("P", 1)
+            cases = [
+                ("a single cell, one level down", [a], r + 1),
+                ("a single cell, two levels down", [a], r + 2),
+                ("a cell already at the target", [a], r),
+                ("two siblings in descending order", [b, a], r + 1),
+                ("the same cell twice", [a, a], r + 1),
+                ("the same cell three times, already at the target", [a, a, a], r),
+                ("cells of three resolutions, interleaved", [a, P1, c], r + 1),
+                ("fine, coarse, fine", [c, P0, a], r),
+                ("coarse cell after its own nephew", [c, P0], r + 1),
+            ]
+            for title, names, t in cases:
+                if streak >= 6:
+                    break
+                stats["scenarios"] += 1
+                tag = f"a5.core.compact.uncompact on {title} (resolutions {sorted({fam.r - 1 if n[0] == 'P' else fam.r for n in names})} -> {t}, face / segment / position symbolic)"
+                want: Optional[List[Lin]] = []
+                for nm in names:
+                    res_nm = fam.r - 1 if nm[0] == "P" else fam.r
+                    if res_nm == t:
+                        want.append(fam.form(nm))
+                        continue
+                    rets, raises = children_family(interp, fam.form(nm), Lin(t))
+                    ks = _concrete(rets[0].value) if len(rets) == 1 and not raises else None
+                    if ks is None:
+                        want = None
+                        break
+                    want.extend(ks)
+                if want is None:
+                    stats["not_modelled"] += 1
+                    continue
+                try:
+                    outs = interp.run_function(COMPACT, "uncompact", [ListV([Seg(fam.form(nm)) for nm in names]), Lin(t)])
+                except (Budget, _Unmodelled, RecursionError):
+                    stats["not_modelled"] += 1
+                    streak += 1
+                    continue
+                if len(outs) != 1 or outs[0].state.path:
+                    stats["not_modelled"] += 1
+                    streak += 1
+                    continue
+                o = outs[0]
+                if o.kind == "raise":
+                    ctx.bad("C10.7", f"{tag}: raises", where, f"input {_show(names)}: {o.value}")
+                    stats["decided"] += 1
+                    streak = 0
+                    continue
+                got = _concrete_result(o.value)
+                if got is None:
+                    stats["not_modelled"] += 1
+                    streak += 1
+                    continue
+                stats["decided"] += 1
+                streak = 0
+                if len(got) != len(want):
+                    ctx.bad("C10.7", f"{tag}: returns {len(got)} cells, the input cells have {len(want)} descendants (with multiplicity)", where,
+                            f"input {_show(names)}")
+                    continue
+                bad_at = [i for i, (x, y) in enumerate(zip(got, want)) if not (isinstance(x, Lin) and x == y)]
+                if bad_at:
+                    i = bad_at[0]
+                    ctx.bad("C10.7", f"{tag}: position {i} of the result is not the descendant that belongs there", where,
+                            f"input {_show(names)}: got {got[i]}, expected {want[i]} ({len(bad_at)} of {len(want)} positions differ): "
+                            f"the result is not the descendants of each input cell in input order")
+                else:
+                    ctx.ok("C10.7", f"{tag}: descendants of each cell, in order, with multiplicity", where, f"{len(want)} cells")
+    finally:
+        interp.unroll_ranges, interp.MAX_STEPS = saved, saved_steps
+    return stats
+
+
+def _concrete_result(v: Any) -> Optional[List[Any]]:
+    """a returned list, including the `[0] * n` + index / slice store form"""
+    lst = _concrete(v)
+    if lst is not None and not (isinstance(v, ListV) and v.alloc_len is not None):
+        return lst
+    if isinstance(v, ListV) and v.alloc_len is not None and v.alloc_len.is_const() and not v.unknown:
+        n = v.alloc_len.const
+        out: List[Any] = [v.alloc_elem] * n
+        for idx, val, binders in v.stores:
+            if binders or not isinstance(idx, Lin) or not idx.is_const() or not (0 <= idx.const < n):
+                return None
+            out[idx.const] = val
+        return out
+    return None
